@@ -21,6 +21,7 @@ type recNIC struct {
 	want map[int][]byte
 	base time.Time
 	got  []recDep
+	seen int
 	hook func()
 }
 
@@ -48,6 +49,7 @@ func (n *recNIC) onInboundChunk(c Chunk) {
 	d := recDep{id: id, n: len(c.UserData()), ms: int(time.Since(n.base) / time.Millisecond), us: int64(time.Since(n.base) / time.Microsecond)}
 	d.intact = ok && string(c.UserData()) == string(n.want[id])
 	n.got = append(n.got, d)
+	n.seen++
 	h := n.hook
 	n.mu.Unlock()
 	if h != nil {
